@@ -61,6 +61,20 @@ def run(ctx):
                                obligation="C16.one_activity_per_update: the emitted tree is balanced (every loop body and path reports as many activities as it performs updates)",
                                reason="the spacetime program is not balanced: bal=%r, %d update / %d addActivity statements" % (a["bal"], a["update_statements"], a["activity_statements"])),
                           bool(failing))
+    # observation-only at the level of the tensor OBJECTS of the spacetime-mode program: rank ids / aliasing (C07.chk_sound) and the
+    # origin of every in-place update (C07.tchk_sound) - the display code neither renames nor modifies a user input, in any execution
+    import c07
+    objr = [r for r in okr if "user" in r]
+    oreqs = [{"op": op, "tree": r["tree"], "inputs": c07.input_vars(r)} for r in objr for op in ("rankheap", "taint_check")]
+    oans = common.lean_batch(oreqs)
+    for i, r in enumerate(objr):
+        for a, what in ((oans[2 * i], "rank ids / aliasing"), (oans[2 * i + 1], "origin of in-place updates")):
+            if "error" in a:
+                raise common.InternalError("lean: " + a["error"])
+            ctx.ob(a["ok"]); ctx.stat("spacetime_tree_object_checks")
+            if not a["ok"]:
+                ctx.violation(dict(kind="spacetime-objects", yaml=r["yaml"], yaml_text=specs.dump_yaml(r["yaml"]), text=r["text"], reason="%s: %s" % (what, a["why"]),
+                                   obligation="RankHeap.chk / Taint.chk (C07.chk_sound, C07.tchk_sound) accept the spacetime-mode tree"), False)
     for r in keep:
         if not r["ok"]:
             continue
